@@ -206,8 +206,8 @@ class Ctx:
         ev = {"property_id": self.prop, "tier": self.tier, "seed": self.seed, "level": LEVEL,
               "coverage": cov, "assumptions": self.assumptions,
               "wall_s": round(time.time() - self.t0, 2), "violations": nviol}
-        d = VERIF / "evidence"
-        d.mkdir(exist_ok=True)
+        d = Path(os.environ.get("VERIF_EVIDENCE") or (VERIF / "evidence"))   # scratch runs (bin/seedtest) write elsewhere
+        d.mkdir(parents=True, exist_ok=True)
         (d / f"{self.prop}.json").write_text(json.dumps(ev, indent=1, default=repr))
 
 
@@ -239,7 +239,8 @@ def main(argv=None) -> int:
     ap.add_argument("--replay", default=None)
     args = ap.parse_args(argv)
     seed = int(os.environ.get("VERIF_SEED", "0") or 0)
-    os.environ["PYTHONPATH"] = str(VERIF) + os.pathsep + os.environ.get("PYTHONPATH", "")
+    os.environ["PYTHONPATH"] = (os.environ.get("VERIF_REPO", "/repo") + os.pathsep + str(VERIF) + os.pathsep
+                                + os.environ.get("PYTHONPATH", ""))
     os.environ.setdefault("PYTHONHASHSEED", "0")
     os.environ.setdefault("TQDM_DISABLE", "1")
     os.environ.setdefault("NUMBA_CACHE_DIR", str(tlc.workdir() / "numba_cache"))
